@@ -18,10 +18,6 @@ def C14_attempt_limit : Prop :=
 def C14_reset_policy_trace : Prop :=
   ∀ (cfg : Cfg) (script : List PEntry) (evs : List Ev), C14.resetOk cfg.reset (trace cfg script evs) = true
 
-/-- The buffer sizes announced in successive fetch requests follow the growth rule. -/
-def C14_growth_trace : Prop :=
-  ∀ (cfg : Cfg) (script : List PEntry) (evs : List Ev), C14.growthOk cfg.bufInit cfg.bufMax (trace cfg script evs) = true
-
 /-- A too-small answer never changes the offset of the next fetch request. -/
 def C14_never_skips_trace : Prop :=
   ∀ (cfg : Cfg) (script : List PEntry) (evs : List Ev), C14.neverSkipsOk (trace cfg script evs) = true
